@@ -345,6 +345,27 @@ async def _consume(api, world, name, token, h, consume, out):
                 world.log("net_read", name, token, step["read"], d)
             elif "write" in step:
                 await api.net_write(h, _b(step["write"]))
+    elif isinstance(consume, dict) and "upgrade_read_all" in consume:
+        spec = consume["upgrade_read_all"]
+        got = []
+        out["net_reads"] = got
+        out["net_max"] = []
+        total = 0
+        i = 0
+        writes = list(spec.get("writes", ()))
+        while total < spec["total"]:
+            mb = spec["max_bytes"][i % len(spec["max_bytes"])]
+            d = await api.net_read(h, mb, spec.get("timeout", 2.0))
+            got.append(d)
+            out["net_max"].append(mb)
+            total += len(d)
+            i += 1
+            if not d:
+                break
+            if writes and i % 2 == 0:
+                await api.net_write(h, _b(writes.pop(0)))
+        for wdata in writes:
+            await api.net_write(h, _b(wdata))
     elif consume == "close":
         pass
     else:
